@@ -119,6 +119,15 @@ fn cigar_to_features(
 ) -> io::Result<Vec<Feature>> {
     use noodles_sam::alignment::record::cigar::op::Kind;
 
+    // The features are derived from the read bases: a CIGAR that consumes more bases than the
+    // record has, e.g., when the sequence is missing, cannot be converted.
+    if cigar.read_length()? > sequence.len() {
+        return Err(io::Error::new(
+            io::ErrorKind::InvalidInput,
+            "CIGAR-sequence length mismatch",
+        ));
+    }
+
     let mut features = Vec::new();
 
     let mut reference_position = alignment_start;
